@@ -474,7 +474,40 @@ def schedules(ctx):
                     vios.append({"input": {"concurrent_models": models}, "observed": {"entry": None if content is None else content.decode("utf-8", "replace"), "served_not_complete": [s.decode("utf-8", "replace") for s in served if s not in ref][:3]}, "required": "under concurrency the entry and every printed line are complete outputs", "oracle": "concurrent"})
     finally:
         tree.close()
+    # the same session twice in a row, for lines of every size class (around the buffer sizes a bounded read would use):
+    # the second invocation is answered from the cache and must print the whole line the first one built
+    sizes = [50, 900, 4000, 4090, 4096, 4097, 5000, 8191, 8192, 8193, 20000, 70000]
+    for n in (sizes if ctx.tier == "thorough" or ctx.broken else sizes[ctx_seed_offset(ctx) % 2::2] + [4097, 8193]):
+        tree = Tree(claude=False)
+        try:
+            model = "L" + "z" * n + "-end"
+            session = "long%d" % n
+            rc1, out1, err1 = tree.run(inp(session, model))
+            rc2, out2, err2 = tree.run(inp(session, "other-model"))
+            stats["evaluations"] += 1
+            stats["sequential_same_session"] += 1
+            t3 = Tree(claude=False)
+            try:
+                own = t3.run(inp(session, "other-model"))[1]
+            finally:
+                t3.close()
+            served_from_cache = out2 != own
+            stats["served_from_cache"] += int(served_from_cache)
+            if rc1 != 0 or rc2 != 0 or (out2 != out1 and out2 != own):
+                if len(vios) < 8:
+                    vios.append({"input": {"schedule": "same session twice", "first_model_length": len(model), "session": session, "stdin_first": inp(session, model).decode()[:200] + "…"},
+                                 "observed": {"first_line_length": len(out1), "second_line_length": len(out2), "second_line_tail": out2[-60:].decode("utf-8", "replace")},
+                                 "required": "the second invocation prints the complete line the first one built (served from the cache) or a line of its own - not a part of it", "oracle": "cache-serves-whole-line"})
+        finally:
+            tree.close()
     return vios, stats
+
+
+def ctx_seed_offset(ctx) -> int:
+    try:
+        return int(os.environ.get("VERIF_SEED", "0"))
+    except ValueError:
+        return 0
 
 
 def matches_finding(entry, v) -> bool:
